@@ -4,22 +4,24 @@ import json, os
 V = os.path.dirname(os.path.dirname(os.path.abspath(__file__)))
 ALL = [f'C{i:02d}' for i in range(1, 21)]
 
-# id -> (level text, level note, technique, design ref)
-CLAIMS = {
- 'C15': ('Lean 4 theorems for all n, start, stop, step>=1 and all sample sizes (slice_indices_eq_python, slice_reports_agree, '
-         'sample_eq_spec, sample_count, sample_shape, parse_* lemmas) about a model of common/Slice.py; the model is tied to '
-         'the source on every run by an exhaustive small-scope + random correspondence with the real Slice/Sample/'
-         'create_slice_or_sample. Proof is the right level: the property is pure integer arithmetic quantified over '
-         'unbounded n.',
-         'Trusted: Lean kernel; model<->code correspondence on the cases of the run; builtin slice.indices/range/int are '
-         'modelled (CPython arithmetic transcribed), not verified. Option strings restricted to ASCII.',
-         'Lean 4 proof (induction / omega) + model-implementation correspondence', 'DESIGN.md section 6 C15'),
-}
+import importlib, sys
+sys.path.insert(0, os.path.join(V, 'harness'))
+
+def claims():
+    out = {}
+    for pid in ALL:
+        if os.path.exists(os.path.join(V, 'harness', 'props', pid.lower() + '.py')):
+            mod = importlib.import_module('props.' + pid.lower())
+            c = getattr(mod, 'CLAIM', None)
+            if c:
+                out[pid] = (c['text'], c['note'], c['technique'], c.get('design_ref', f'DESIGN.md section 6 {pid}'))
+    return out
 
 def main():
     checks, na = [], []
+    CLAIMS = claims()
     for pid in ALL:
-        if pid in CLAIMS and os.path.exists(os.path.join(V, 'harness', 'props', pid.lower() + '.py')):
+        if pid in CLAIMS:
             text, note, tech, ref = CLAIMS[pid]
             checks.append({
                 'property_id': pid,
